@@ -1,6 +1,9 @@
 package main
 
 import (
+	"sync"
+	"net/http/httptest"
+	"net/http"
 	"time"
 	"archive/tar"
 	"bytes"
@@ -457,11 +460,140 @@ func stillSameFileset(stored []byte, id api.WareID) (bool, string) {
 
 func filepathClean(s string) string { return filepath.Clean(s) }
 
+// fetchOverlap: two operations on one wareID overlap in time. Operation 1 (a mirror, or an unpack) reads W from an http
+// warehouse that serves *another* ware of the same length under W's address and holds the response open just before its
+// end; while it hangs, operation 2 unpacks the genuine W from a file:// warehouse; then the server lets go. Operation 1
+// must fail, and nothing may be filed under W at its target / in its cache. Recipe: "fetch-overlap <tar|zip> <mirror|unpack>".
+func fetchOverlap(c *Ctx, op string) {
+	f := strings.Fields(op)
+	fmtName, what := f[1], f[2]
+	caseCounter++
+	base := filepath.Join(c.Work, fmt.Sprintf("fo%d", caseCounter))
+	defer rmrf(base)
+	fn := funcsFor(fmtName)
+	ctx := context.Background()
+	pf := api.MustParseFilesetPackFilter(losslessPackStr)
+	uf := api.MustParseFilesetUnpackFilter(losslessUnpackStr)
+	os.Setenv("RIO_CACHE", filepath.Join(base, "cache"))
+	os.Setenv("RIO_BASE", filepath.Join(base, "riobase"))
+	body := make([]byte, 3000)
+	x := uint32(77)
+	for i := range body {
+		x = x*1664525 + 1013904223
+		body[i] = byte(x >> 24)
+	}
+	mk := func(name string, b []byte) (api.WareID, []byte, string) {
+		src, wh := filepath.Join(base, "src-"+name), filepath.Join(base, "wh-"+name)
+		os.MkdirAll(src, 0755)
+		os.MkdirAll(wh, 0755)
+		os.WriteFile(filepath.Join(src, "payload"), b, 0644)
+		os.Chtimes(filepath.Join(src, "payload"), time.Unix(1e9, 0), time.Unix(1e9, 0))
+		os.Chtimes(src, time.Unix(1e9, 0), time.Unix(1e9, 0))
+		id, err := fn.pack(ctx, api.PackType(fmtName), src, pf, whAddr("file", wh), rio.Monitor{})
+		if err != nil {
+			return api.WareID{}, nil, ""
+		}
+		st, _ := os.ReadFile(storedWarePath("file", wh, id))
+		return id, st, wh
+	}
+	idW, bytesW, whW := mk("genuine", body)
+	other := append([]byte(nil), body...)
+	other[1500] ^= 0x55
+	idO, bytesO, _ := mk("other", other)
+	if idW.Hash == "" || idO.Hash == "" || idW == idO || len(bytesW) != len(bytesO) {
+		c.H("fetch-overlap:unequal-lengths")
+		c.EmitR(op, "skip", "skip")
+		return
+	}
+	sentAll, release := make(chan struct{}), make(chan struct{})
+	var once sync.Once
+	srv := httptest.NewServer(http.HandlerFunc(func(w http.ResponseWriter, r *http.Request) {
+		w.Header().Set("Content-Length", fmt.Sprint(len(bytesO)))
+		w.Write(bytesO[:len(bytesO)-1])
+		if fl, ok := w.(http.Flusher); ok {
+			fl.Flush()
+		}
+		once.Do(func() { close(sentAll) })
+		<-release
+		w.Write(bytesO[len(bytesO)-1:])
+	}))
+	defer srv.Close()
+	tgt := filepath.Join(base, "tgt")
+	os.MkdirAll(tgt, 0755)
+	done := make(chan string, 1)
+	go func() {
+		var id api.WareID
+		var err error
+		var pan string
+		if what == "mirror" {
+			id, err, pan = safeCall(func() (api.WareID, error) {
+				return fn.mirror(ctx, idW, whAddr("ca", tgt), []api.WarehouseLocation{api.WarehouseLocation(srv.URL + "/w")}, rio.Monitor{})
+			})
+		} else {
+			id, err, pan = safeCall(func() (api.WareID, error) {
+				return fn.unpack(ctx, idW, filepath.Join(base, "dst1"), uf, rio.Placement_Copy, []api.WarehouseLocation{api.WarehouseLocation(srv.URL + "/w")}, rio.Monitor{})
+			})
+		}
+		done <- resTok(id, err, pan)
+	}()
+	res1 := ""
+	select {
+	case <-sentAll:
+		time.Sleep(150 * time.Millisecond) // let operation 1 take in what has arrived
+	case res1 = <-done:
+	case <-time.After(10 * time.Second):
+	}
+	res2 := "-"
+	if res1 == "" {
+		os.Setenv("RIO_CACHE", filepath.Join(base, "cache2"))
+		id2, err2, pan2 := safeCall(func() (api.WareID, error) {
+			return fn.unpack(ctx, idW, filepath.Join(base, "dst2"), uf, rio.Placement_Direct, []api.WarehouseLocation{whAddr("file", whW)}, rio.Monitor{})
+		})
+		res2 = resTok(id2, err2, pan2)
+		os.Setenv("RIO_CACHE", filepath.Join(base, "cache"))
+	}
+	close(release)
+	if res1 == "" {
+		select {
+		case res1 = <-done:
+		case <-time.After(20 * time.Second):
+			res1 = "timeout"
+		}
+	}
+	c.EmitR(op, "skip", "skip")
+	c.H("fetch-overlap:" + fmtName + ":" + what + ":" + strings.Fields(res1)[0] + ":" + strings.Fields(res2)[0])
+	if res2 != "-" && res2 != "ok "+idW.Hash {
+		c.PropFail("fetch-refused-valid", "an unpack of the genuine ware from a file warehouse failed while another fetch of the same id was in flight: "+res2, op)
+	}
+	_, filedErr := os.Lstat(storedWarePath("ca", tgt, idW))
+	switch {
+	case res1 == "panic":
+		c.PropFail("fetch-panic", "a fetch overlapping another fetch of the same id panicked", op)
+	case strings.HasPrefix(res1, "ok") && what == "mirror":
+		c.PropFail("mirror-accepted-altered", fmt.Sprintf("a mirror of %s from a warehouse serving another ware (same length) under that address succeeded while a second fetch of the genuine ware ran", idW.Hash[:8]), op)
+	case strings.HasPrefix(res1, "ok"):
+		c.PropFail("fetch-accepted-altered", fmt.Sprintf("an unpack of %s from a warehouse serving another ware (same length) under that address succeeded while a second fetch of the genuine ware ran", idW.Hash[:8]), op)
+	}
+	if what == "mirror" && filedErr == nil {
+		if b, _ := os.ReadFile(storedWarePath("ca", tgt, idW)); !bytes.Equal(b, bytesW) {
+			c.PropFail("mirror-accepted-altered", "the mirror target holds, under W's address, bytes that are not W's", op)
+		}
+	}
+	if what == "unpack" {
+		if sh, _ := filepath.Glob(filepath.Join(base, "cache", fmtName, "fileset", "*", "*", "*")); len(sh) > 0 {
+			c.PropFail("fetch-shelved-altered", "a fetch of another ware under W's address left a shelf in the fileset cache", op)
+		}
+	}
+	c.Distinct(op)
+}
+
 func fetchEngine(c *Ctx) {
 	if ls := replayLines(); ls != nil {
 		for _, op := range ls {
 			if strings.HasPrefix(op, "fetch ") && !strings.Contains(op, " #") {
 				fetchExec(c, op)
+			} else if strings.HasPrefix(op, "fetch-overlap ") {
+				fetchOverlap(c, op)
 			}
 		}
 		return
@@ -469,6 +601,11 @@ func fetchEngine(c *Ctx) {
 	n := 10
 	if c.Tier == "thorough" {
 		n = 150
+	}
+	for _, fm := range []string{"zip", "tar"} {
+		for _, w := range []string{"mirror", "unpack"} {
+			fetchOverlap(c, fmt.Sprintf("fetch-overlap %s %s", fm, w))
+		}
 	}
 	muts := []string{"none", "recompress", "plain", "pad:2", "reorder", "flip", "flip", "flip", "trunc", "trunc", "truncgz", "substitute", "dropentry", "addentry", "addlink", "twomember", "twomember-same", "adddir", "modattr", "modattr", "modattr-ns", "modcontent"}
 	modes := []string{"direct", "copy", "none", "mount"}
